@@ -575,8 +575,11 @@ def check(ctx):
         stmts = sorted({id(s): s for a, t, v, s, k in groups[merge]}.values(), key=pos)
         block = None
         for p in prog.ancestors(stmts[0]):
-            if hasattr(p, "body") and isinstance(p.body, list) and stmts[0] in p.body:
-                block = p.body
+            for fld_ in ("body", "orelse", "finalbody"):
+                b_ = getattr(p, fld_, None)
+                if isinstance(b_, list) and any(x is stmts[0] for x in b_):
+                    block = b_
+            if block is not None:
                 break
         try:
             tr = Translator(strip_index=lambda sl: canon(sl) == idx, positive=["self.S", params[3], "self.n_evals"])
